@@ -7,16 +7,21 @@ package task
 // Exported face of the F-task set-up, for harnesses living in other packages (environment).
 
 import (
+	"github.com/AliceO2Group/Control/common"
+	"github.com/AliceO2Group/Control/common/controlmode"
 	"github.com/AliceO2Group/Control/common/event"
+	"github.com/AliceO2Group/Control/common/gera"
 	"github.com/AliceO2Group/Control/core/controlcommands"
 	"github.com/AliceO2Group/Control/core/task/sm"
+	"github.com/AliceO2Group/Control/core/task/taskclass"
 	mesos "github.com/mesos/mesos-go/api/v1/lib"
 )
 
 type VerifWorld struct {
-	M     *Manager
-	Tasks []*Task
-	w     *ftWorld
+	M        *Manager
+	Tasks    []*Task
+	w        *ftWorld
+	launched []*Task
 }
 
 // VerifNewWorld builds a task manager holding one deployed, still unowned task per name (a role takes
@@ -70,3 +75,63 @@ func (v *VerifWorld) SetKillBehaviour(fails func(taskId string) bool) {
 
 // VerifMessageTaskCount tells how many tasks a message to the task manager names.
 func VerifMessageTaskCount(msg *TaskmanMessage) int { return len(msg.tasks) }
+
+// Verdicts of the stand-in scheduler side for one descriptor of a deployment request.
+const (
+	VerifLaunched = iota
+	VerifNotThisRound
+	VerifImpossible
+)
+
+// ServeDeployments makes the world answer the deployment requests of Manager.acquireTasks (what the OFFERS handler
+// does in the scheduler): every descriptor is launched, left for a later round or declared impossible to place as
+// verdict says; with reportRunning a launched task is reported TASK_RUNNING by its executor right away (without, the
+// executors have not reported yet when the deployment is given up). Launched returns the tasks
+// launched so far (also those of attempts that failed as a whole).
+func (v *VerifWorld) ServeDeployments(verdict func(className string) int, reportRunning bool) {
+	tasksToDeploy := make(chan *ResourceOffersDeploymentRequest, 4)
+	v.M.tasksToDeploy = tasksToDeploy
+	v.M.reviveOffersTrg = make(chan struct{})
+	go func() {
+		for {
+			<-v.M.reviveOffersTrg
+			v.M.reviveOffersTrg <- struct{}{}
+			req := <-tasksToDeploy
+			out := ResourceOffersOutcome{deployed: DeploymentMap{}}
+			for _, d := range req.tasksToDeploy {
+				switch verdict(d.TaskClassName) {
+				case VerifLaunched:
+					offer := &mesos.Offer{ID: mesos.OfferID{Value: "offer-" + d.TaskClassName}, AgentID: mesos.AgentID{Value: "agent-new"}, Hostname: "host-new"}
+					t := v.M.newTaskForMesosOffer(offer, d, nil, mesos.ExecutorID{Value: "exec-new"})
+					cmdValue, shell := "cmd", false
+					t.commandInfo = &common.TaskCommandInfo{CommandInfo: common.CommandInfo{Value: &cmdValue, Shell: &shell}}
+					v.launched = append(v.launched, t)
+					out.deployed[t] = d
+					run := mesos.TASK_RUNNING
+					st := &mesos.TaskStatus{TaskID: mesos.TaskID{Value: t.taskId}, State: &run, AgentID: &offer.AgentID, ExecutorID: &mesos.ExecutorID{Value: "exec-new"}}
+					if reportRunning {
+						go func() {
+							// the update reaches the core once the task is in the roster (acquireTasks has returned)
+							v.M.MessageChannel <- NewTaskStatusMessage(*st)
+						}()
+					}
+				case VerifNotThisRound:
+					out.undeployed = append(out.undeployed, d)
+				default:
+					out.undeployable = append(out.undeployable, d)
+				}
+			}
+			req.outcomeCh <- out
+		}
+	}()
+}
+
+func (v *VerifWorld) Launched() []*Task { return v.launched }
+
+// RegisterClass puts a task class into the manager's class cache.
+func (v *VerifWorld) RegisterClass(name string) {
+	class := &taskclass.Class{Defaults: gera.MakeMap[string, string](), Vars: gera.MakeMap[string, string](), Properties: gera.MakeMap[string, string]()}
+	class.Identifier = taskclass.Id{Name: name}
+	class.Control.Mode = controlmode.DIRECT
+	v.M.classes.UpdateClass(name, class)
+}
